@@ -31,9 +31,10 @@ pub(crate) fn crypto_scalarmult_curve25519(
     n: &[u8; CRYPTO_SCALARMULT_CURVE25519_SCALARBYTES],
     p: &[u8; CRYPTO_SCALARMULT_CURVE25519_BYTES],
 ) {
-    let sk = Scalar::from_bytes_mod_order(clamp(n));
-    let pk = MontgomeryPoint(*p);
-    let shared_secret = sk * pk;
+    // X25519 multiplies by the clamped scalar as an integer; reducing it modulo
+    // the group order first is only correct for points in the prime-order
+    // subgroup, so the clamped bytes are used unreduced
+    let shared_secret = MontgomeryPoint(*p).mul_clamped(clamp(n));
 
     q.copy_from_slice(shared_secret.as_bytes());
 }
